@@ -9,7 +9,9 @@ import itertools, warnings, inspect
 from . import core, progs
 from .core import sigtools, signatures
 
-FORMS = ('function', 'method', 'super', 'apply_super', 'super_closure', 'apply_super_shared')
+FORMS = ('function', 'method', 'super', 'apply_super', 'super_closure', 'apply_super_shared', 'super_diamond')
+# 'super_diamond': the receiver's class inherits the declaring class AND a sibling, so super() reaches the sibling's method;
+# a receiver of the declaring class itself is asked first (what super() finds depends on the receiver, not on the function)
 # 'apply_super_shared': ONE decorator object made by apply_forwards_to_super decorates an unrelated class first, then the class under test
 # 'super_closure': the class is made by a factory and the method closes over the factory's arguments (free variables that
 # sort before and after `__class__`) besides the implicit `__class__` cell of the argument-less super()
@@ -79,6 +81,19 @@ def build(req):
         L += ind(ind(dsrc(selfp + list(ops), 'wrapper_plain', 'return None')))
         L += ind(['return C'])
         L += ['C = make(Base, 0)', 'inst = C()', 'target = inst.wrapper', 'own = inst.wrapper_plain', 'callee = super(C, inst).wrapper']
+    elif form == 'super_diamond':
+        L += ['class Base(object):'] + ind(truthy)
+        L += ind(dsrc(selfp + list(ips), 'wrapper', _body_record(ips, 'inner')))
+        L += ['class Mix(Base):']
+        L += ind(dsrc(selfp + [core.P('m9', 'pk'), core.P('extra9', 'pk', 1)], 'wrapper', "return ('mix', m9, extra9)"))
+        L += ['class C(Base):']
+        L += ind(['@specifiers.forwards_to_super(%s)' % decl_args])
+        L += ind(dsrc(selfp + list(ops), 'wrapper',
+                      'return ' + _call_src('super(C, self).wrapper', n, names, uva, uvk, va, vk)))
+        L += ind(dsrc(selfp + list(ops), 'wrapper_plain', 'return None'))
+        L += ['class D(C, Mix):', '    pass', 'first = C()', 'import sigtools as _st', 'try:', '    _st.signature(first.wrapper)',
+              'except Exception:', '    pass']
+        L += ['inst = D()', 'target = inst.wrapper', 'own = inst.wrapper_plain', 'callee = super(C, inst).wrapper']
     else:
         L += ['class Base(object):'] + ind(truthy)
         L += ind(dsrc(selfp + list(ips), 'wrapper', _body_record(ips, 'inner')))
